@@ -1186,6 +1186,8 @@ impl World {
 
     pub fn ev_teardown(&mut self, c: usize, role: Role, cov: &mut Cov) -> V {
         let p = self.p;
+        #[allow(unused_assignments)]
+        let mut scan0: Option<Vec<Vec<usize>>> = None;
         let (scan, refc, hist) = match role {
             Role::S => {
                 let sc = match self.scs.get_mut(c).and_then(|x| x.take()) {
@@ -1203,6 +1205,7 @@ impl World {
                 if p == P::C16 {
                     self.check_teardown_ledger(&before, "sender context")?;
                 }
+                scan0 = sc.scan0;
                 (scan, sc.refc, hist)
             }
             Role::R => {
@@ -1221,6 +1224,7 @@ impl World {
                 if p == P::C16 {
                     self.check_teardown_ledger(&before, "receiver context")?;
                 }
+                scan0 = rc.scan0;
                 (scan, rc.refc, hist)
             }
         };
@@ -1248,6 +1252,17 @@ impl World {
                 continue;
             }
             cov.hit(&format!("teardown.observed.{}", names[i]));
+            if !scan.survived(i) && scan.before[i].iter().any(|o| scan.after[i].contains(o)) {
+                cov.hit(&format!("probe.teardown_partial_survivor.{}", names[i]));
+            }
+            // a place that did not hold the secret right after setup, holds it now and still holds it
+            // after the drop: a copy the library made while the context was in use and never wiped
+            // (places present since construction may be stale bytes in padding, see 9.2; these cannot)
+            if let Some(s0) = scan0.as_ref() {
+                if let Some(o) = scan.before[i].iter().find(|o| scan.after[i].contains(o) && !s0[i].contains(o)) {
+                    return Err(self.viol(&format!("drop.{}-copy-made-during-use-still-in-memory", names[i]), format!("no copy of the {} that appeared in the {:?} context after setup outlives the drop", names[i], role), format!("still present at offset {} of the {}-byte context", o, scan.size)));
+                }
+            }
             if scan.survived(i) {
                 return Err(self.viol(&format!("drop.{}-still-in-memory", names[i]), format!("{} no longer present in the {}-byte slot of the dropped {:?} context", names[i], scan.size, role), "still present after drop".into()));
             }
